@@ -81,7 +81,13 @@ func (d *diffRig) diff(bs int, olds [][]byte, nw []byte, pref int64) (ops []sop,
 	ctx := d.ctx(bs)
 	var sig []wsync.BlockHash
 	for i, o := range olds {
-		err := ctx.CreateSignature(context.Background(), int64(i), bytes.NewReader(o), func(h wsync.BlockHash) error {
+		var src io.Reader = bytes.NewReader(o)
+		if (len(o)+i+bs+len(nw))%3 == 0 {
+			// a reader that hands its bytes out in pieces of 1..bs+1 and the LAST piece together with io.EOF
+			// (compress/flate and archive/zip readers behave like that)
+			src = &eofDataReader{data: o, chunk: 1 + (len(o)+len(nw))%(bs+1)}
+		}
+		err := ctx.CreateSignature(context.Background(), int64(i), src, func(h wsync.BlockHash) error {
 			sig = append(sig, h)
 			return nil
 		})
@@ -90,7 +96,11 @@ func (d *diffRig) diff(bs int, olds [][]byte, nw []byte, pref int64) (ops []sop,
 		}
 	}
 	lib := wsync.NewBlockLibrary(sig)
-	err = ctx.ComputeDiff(bytes.NewReader(nw), lib, func(op wsync.Operation) error {
+	var nsrc io.Reader = bytes.NewReader(nw)
+	if (len(nw)+bs+len(olds))%4 == 0 {
+		nsrc = &eofDataReader{data: nw, chunk: 1 + (len(nw)+len(olds))%(2*bs+1)}
+	}
+	err = ctx.ComputeDiff(nsrc, lib, func(op wsync.Operation) error {
 		o := sop{typ: op.Type, f: op.FileIndex, i: op.BlockIndex, span: op.BlockSpan}
 		if op.Type == wsync.OpData {
 			o.data = append([]byte(nil), op.Data...)
@@ -635,4 +645,28 @@ func trunc(s string, n int) string {
 		return s[:n] + "..."
 	}
 	return s
+}
+
+// eofDataReader returns data in pieces of at most chunk bytes, the last piece together with io.EOF.
+type eofDataReader struct {
+	data  []byte
+	chunk int
+}
+
+func (r *eofDataReader) Read(p []byte) (int, error) {
+	if len(r.data) == 0 {
+		return 0, io.EOF
+	}
+	n := r.chunk
+	if n > len(p) {
+		n = len(p)
+	}
+	if n >= len(r.data) {
+		n = copy(p, r.data)
+		r.data = nil
+		return n, io.EOF
+	}
+	copy(p, r.data[:n])
+	r.data = r.data[n:]
+	return n, nil
 }
